@@ -108,3 +108,33 @@ func VerifParseSignature(body []byte) string {
 	}
 	return "other " + hex.EncodeToString([]byte(err.Error()))
 }
+
+// VerifParseSignatureV3 runs SignatureV3.parse on a packet body
+func VerifParseSignatureV3(body []byte) string {
+	s := new(SignatureV3)
+	err := s.parse(bytes.NewReader(body))
+	if err == nil {
+		hid, _ := s2k.HashToHashId(s.Hash)
+		mpis := []parsedMPI{s.RSASignature}
+		if s.PubKeyAlgo == PubKeyAlgoDSA {
+			mpis = []parsedMPI{s.DSASigR, s.DSASigS}
+		}
+		var ms []string
+		for _, m := range mpis {
+			ms = append(ms, fmt.Sprintf("%d:%s", m.bitLength, verifHex(m.bytes)))
+		}
+		return fmt.Sprintf("ok V3 %d %d %016x %d %d %s %d %s", s.SigType, s.CreationTime.Unix(), s.IssuerKeyId, s.PubKeyAlgo, hid,
+			verifHex(s.HashTag[:]), len(ms), strings.Join(ms, " "))
+	}
+	switch err.(type) {
+	case errors.UnsupportedError:
+		return "unsupported"
+	case errors.StructuralError:
+		return "structural"
+	}
+	if err == io.EOF || err == io.ErrUnexpectedEOF {
+		return "eof"
+	}
+	return "other " + hex.EncodeToString([]byte(err.Error()))
+}
+
